@@ -602,6 +602,13 @@ void jv_apair_set(int view, void* arr, size_t i, const void* g1a, const void* g2
     bls::AffinePair* a = static_cast<bls::AffinePair*>(arr);
     a[i].g1 = static_cast<const G1Affine*>(g1a); a[i].g2 = static_cast<const G2Affine*>(g2a);
 }
+/* what record i points at now (the two input members of a pair record; the routine's own running state is not the caller's business) */
+void jv_pair_get(int view, const void* arr, size_t i, int prepared, const void** g1a, const void** g2) {
+    if (view == 0) { if (prepared) { const embedded_pairing_bls12_381_prepared_pair_t* a = static_cast<const embedded_pairing_bls12_381_prepared_pair_t*>(arr); *g1a = a[i].g1; *g2 = a[i].g2; }
+                     else { const embedded_pairing_bls12_381_affine_pair_t* a = static_cast<const embedded_pairing_bls12_381_affine_pair_t*>(arr); *g1a = a[i].g1; *g2 = a[i].g2; } return; }
+    if (prepared) { const bls::PreparedPair* a = static_cast<const bls::PreparedPair*>(arr); *g1a = a[i].g1; *g2 = a[i].g2; }
+    else { const bls::AffinePair* a = static_cast<const bls::AffinePair*>(arr); *g1a = a[i].g1; *g2 = a[i].g2; }
+}
 void jv_ppair_set(int view, void* arr, size_t i, const void* g1a, const void* g2p) {
     if (view == 0) { embedded_pairing_bls12_381_prepared_pair_t* a = static_cast<embedded_pairing_bls12_381_prepared_pair_t*>(arr); a[i].g1 = (embedded_pairing_bls12_381_g1affine_t*) g1a; a[i].g2 = (embedded_pairing_bls12_381_g2prepared_t*) g2p; return; }
     bls::PreparedPair* a = static_cast<bls::PreparedPair*>(arr);
